@@ -493,8 +493,12 @@ char *FUNC(generate)(jwt_common_t *__cmd)
 	jwt->alg = config.alg;
 	jwt->key = config.key;
 
-	if (jwt_head_setup(jwt))
-		return NULL; // LCOV_EXCL_LINE
+	if (jwt_head_setup(jwt)) {
+		// LCOV_EXCL_START
+		jwt_copy_error(__cmd, jwt);
+		return NULL;
+		// LCOV_EXCL_STOP
+	}
 
 	out = jwt_encode_str(jwt);
 	jwt_copy_error(__cmd, jwt);
